@@ -58,7 +58,9 @@ class H:
         expect_fail=(),
         params=None,
         lemma=None,
+        mem_expect=4,
     ):
+        self.mem_expect = min(mem_expect, mem_gb)
         self.name = name  # pretty name as kani reports it, e.g. "c04::rt_len1"
         self.desc = desc
         self.tier = tier
@@ -430,7 +432,7 @@ def run_harness(spec, info, work):
         write(os.path.join(work, spec.name.replace("::", "__") + ".cmd"), " ".join(cmd) + "\n")
         rc, err, dt = _sh(cmd, spec.timeout, spec.mem_gb, stdout_path=outp)
         if rc == -9:
-            res.reason = "solver time cap hit (%ds)" % spec.timeout
+            res.reason = ("solver time cap hit (%ds)" % spec.timeout) if dt >= spec.timeout - 1 else "solver killed (out of memory?) after %.0fs" % dt
             return res
         if rc not in (0, 10):
             res.reason = "cbmc exit %s (memory cap %dGB?) %s" % (rc, spec.mem_gb, err[-300:])
@@ -449,11 +451,44 @@ def run_harness(spec, info, work):
         res.wall_s = time.time() - t0
 
 
+class MemBudget:
+    """Counting semaphore over gigabytes so parallel solver runs cannot exhaust RAM (no swap here)."""
+
+    def __init__(self, total):
+        self.total = total
+        self.free = total
+        self.cv = threading.Condition()
+
+    def acquire(self, n):
+        n = min(n, self.total)
+        with self.cv:
+            while self.free < n:
+                self.cv.wait()
+            self.free -= n
+        return n
+
+    def release(self, n):
+        with self.cv:
+            self.free += n
+            self.cv.notify_all()
+
+
+def _total_mem_gb():
+    try:
+        for line in open("/proc/meminfo"):
+            if line.startswith("MemAvailable:"):
+                return max(8, int(line.split()[1]) // (1 << 20) - 4)
+    except OSError:
+        pass
+    return 32
+
+
 def run_all(specs, infos, work, jobs=None):
     os.makedirs(work, exist_ok=True)
     jobs = jobs or max(2, min(NCPU, 16))
     results = []
     lock = threading.Lock()
+    budget = MemBudget(min(_total_mem_gb(), int(os.environ.get("VERIF_MEM_GB", "56"))))
 
     def one(spec):
         info = infos.get(spec.name)
@@ -461,13 +496,22 @@ def run_all(specs, infos, work, jobs=None):
             r = HResult(spec)
             r.reason = "harness not found in kani metadata"
             return r
-        r = run_harness(spec, info, work)
+        got = budget.acquire(spec.mem_expect)
+        try:
+            r = run_harness(spec, info, work)
+        finally:
+            budget.release(got)
         with lock:
             log("[cbmc] %-40s %-12s %6.1fs %s" % (spec.name, r.verdict, r.wall_s, r.reason[:160]))
         return r
 
+    # heavy harnesses first so they overlap with the many small ones
+    order = sorted(range(len(specs)), key=lambda i: -specs[i].mem_expect)
     with ThreadPoolExecutor(max_workers=jobs) as ex:
-        results = list(ex.map(one, specs))
+        rs = list(ex.map(one, [specs[i] for i in order]))
+    results = [None] * len(specs)
+    for i, r in zip(order, rs):
+        results[i] = r
     return results
 
 
